@@ -2,7 +2,7 @@
    This file contains only property statements, closed by `exact`. *)
 From Coq Require Import ZArith NArith List Bool Lia.
 From PL.C09 Require Import BoolGraph Strat Avoid ClarkBase GenClark ClarkProofs CyclesModel BuilderProofs CyclesProofs Validate ValidateProofs.
-From PL.C09 Require Import CyclesEvModel CyclesEvProofs CyclesEvCond.
+From PL.C09 Require Import CyclesEvModel CyclesEvProofs CyclesEvCond ValidateEv ValidateEvProofs.
 From PL.C06 Require ModelPropagate ProofsPropagate ModelWMC.
 Import ListNotations.
 
@@ -266,6 +266,28 @@ Theorem C09_validate_break_sound_unique : forall F D pairs,
 Proof. exact validate_break_sound_unique. Qed.
 Print Assumptions C09_validate_break_sound_unique.
 
+(* validator for LogicDAG.create_from on a formula with propagated evidence values: evidence pairs in
+   every world, query pairs in every world whose model satisfies the evidence (evs) and in which at
+   most one atom of every listed group is true *)
+Theorem C09_validate_break_ev_sound : forall F D epairs lpairs evs groups,
+    validate_break_ev F D epairs lpairs evs groups = true ->
+    topo D /\
+    forall a, exists s, is_model F a s /\
+      (forall kF kD, In (kF, kD) epairs -> key_val s kF = key_val (vget (dag_val a D)) kD) /\
+      (ev_sat s evs = true -> amo a groups = true ->
+       forall kF kD, In (kF, kD) lpairs -> key_val s kF = key_val (vget (dag_val a D)) kD).
+Proof. exact validate_break_ev_sound. Qed.
+Print Assumptions C09_validate_break_ev_sound.
+
+Theorem C09_validate_break_ev_sound_unique : forall F D epairs lpairs evs groups,
+    validate_break_ev F D epairs lpairs evs groups = true -> stratified F ->
+    forall a s, is_model F a s ->
+      (forall kF kD, In (kF, kD) epairs -> key_val (vget (dag_val a D)) kD = key_val s kF) /\
+      (ev_sat s evs = true -> amo a groups = true ->
+       forall kF kD, In (kF, kD) lpairs -> key_val (vget (dag_val a D)) kD = key_val s kF).
+Proof. exact validate_break_ev_sound_unique. Qed.
+Print Assumptions C09_validate_break_ev_sound_unique.
+
 Theorem C09_validate_clark_sound : forall D ads cls,
     validate_clark D ads cls = true ->
     topo D /\
@@ -338,3 +360,11 @@ Proof.
   split; [|split; [|split]]; try (vm_compute; reflexivity).
   apply (stratb_sound ex_E [0; 0; 0; 0; 0; 0]). reflexivity.
 Qed.
+
+(* the validator accepts the example (query pairs only under the evidence d = true) and would not
+   accept it without the evidence condition *)
+Example C09_example_validate_ev :
+  validate_break_ev ex_E [NAtom 1; NAtom 2; NAnd [1; 2]%Z] [(Some 3%Z, Some 3%Z)]
+                    [(Some 4%Z, Some 0%Z); (Some 5%Z, Some 0%Z)] [(Some 3%Z, true)] [] = true /\
+  validate_break ex_E [NAtom 1; NAtom 2; NAnd [1; 2]%Z] [(Some 4%Z, Some 0%Z)] = false.
+Proof. split; vm_compute; reflexivity. Qed.
